@@ -37,7 +37,9 @@ ASSUMPTIONS = [
     "(conservative: the real process lives strictly inside that window)",
     "asyncio runs callbacks to completion (job_loop is the only starter of tasks; structure facts in GenLimits.v)",
     "commands are only launched from Executor.execute_job inside a task started by Builder.start_task",
-    "hypothesis of the _partial theorems: a step whose command is executing is not declared again (quiet); "
+    "the full resource/hold theorems (no hypothesis on the history) hold iff the generated shape flags say the "
+    "recycle code is repaired (C12_resources_full_iff_repaired, C12_hold_full_iff_repaired); for the unrepaired "
+    "shape: hypothesis of the _partial theorems = a step whose job is in flight is not declared again (quiet); "
     "without it the full statements are refuted (see C12_*_refuted and findings.d/C12-*)",
 ]
 
@@ -63,6 +65,9 @@ def generate(ctx):
     ctx.write_gen("GenLimits.v", text)
     ctx.facts = facts
     ctx._c12_gen_ok = True
+    shape = facts["shape"]
+    ctx.count("shape:" + ("keeps-inflight" if shape["recycle_keeps_inflight"] else
+                          "rejects-inflight" if shape["define_rejects_inflight"] else "unrepaired(D21)"))
 
 
 def _ensure_model(ctx):
@@ -438,6 +443,74 @@ async def _one_trace(rng, length, script=None):
         return d
 
 
+def _recycle_script(rng):
+    """A history that declares a detached step again while its job is in flight (the situation of D21
+    and of its repairs), with seeded variations: job kind (command executing / hash check under way),
+    full or partial recycle, claims of both declarations, open hold blocks, a child declared under the
+    hold, a competitor for the resource. The random generator reaches this in about 1 of 300 traces."""
+    from stepup.core.enums import Need, StepState
+    kind = rng.choice(["running", "running", "checking"])
+    g2 = rng.choice([0, 1])
+    cl1 = rng.choice([{"gpu": 1}, {"gpu": 1}, {"cpu": 1}, {}])
+    cl2 = rng.choice([{}, {"gpu": 1}, {"cpu": 2}, cl1])
+    nhold = rng.choice([0, 1, 1, 2])
+    dn = Need.DEFAULT.value
+
+    async def popr(d):
+        res = await d.pop()
+        if res is not None and res[1] == StepState.RUNNING:
+            await d.reset(res[0])
+        return res
+
+    async def state_of(d, n):
+        async with d.w.db:
+            return {o[0]: o[3] for o in d.dump()}.get(n)
+
+    async def script(d):
+        await d.define(0, 1, 0, {}, dn)
+        await popr(d)                                   # P = 1 executes
+        await d.define(1, 2, 0, cl1, dn)                # P declares S = 2
+        await popr(d)                                   # S executes
+        if kind == "checking":
+            await d.complete(2, 0, "OSucc")             # S gets a stored hash ...
+            await d.markpending(2)
+            await d.pop()                               # ... and is dispatched for a hash check
+        else:
+            for _ in range(nhold):
+                await d.hold(2, 0)
+            await d.define(2, 3, 0, {}, dn)             # child C = 3, under the open hold if nhold > 0
+        await d.complete(1, 0, "ODefer")                # P ends, wants to run again
+        for _ in range(3):                              # P executes again: S (in flight) is detached
+            res = await popr(d)
+            if res is None or res[0] == 1:
+                break
+        await d.define(1, 2, g2, cl2, dn)               # ... and declared again
+        await d.define(1, 4, 0, {"gpu": 1}, dn)         # a competitor for the gpu
+        for _ in range(3):
+            await popr(d)
+        if kind == "checking":
+            if await state_of(d, 2) == StepState.CHECKING.value:
+                await d.check(2, rng.choice(["CSkip", "CMismatch", "CValid"]))
+        else:
+            for _ in range(nhold):
+                await d.release(2, 0)
+        for n in (2, 4, 3):
+            while d.cmds.get(n):
+                await d.complete(n, 0, rng.choice(["OSucc", "OSucc", "OFail"]))
+        for _ in range(3):
+            await popr(d)
+        d.count("script:" + kind + (":partial" if g2 else ":full"))
+    return script
+
+
+def _run_scripts(ctx, n):
+    out = []
+    for _ in range(n):
+        sub = __import__("random").Random(ctx.rng.getrandbits(48))
+        out.append(run(asyncio.wait_for(_one_trace(sub, 0, script=_recycle_script(sub)), 120)))
+    return out
+
+
 def _run_traces(ctx, n, length):
     """Returns (cases, drivers)."""
     drivers = []
@@ -451,7 +524,7 @@ def correspondence(ctx):
     _ensure_model(ctx)
     n = ctx.scale(100, 1200)
     length = ctx.scale(36, 60)
-    drivers = _run_traces(ctx, n, length)
+    drivers = _run_traces(ctx, n, length) + _run_scripts(ctx, ctx.scale(16, 120))
     ctx._c12_drivers = drivers
     checks = []
     for d in drivers:
